@@ -404,5 +404,66 @@ func genAudit(r *Rng, tier string, emit Emit) {
 			m := uefigen.Mutate(fi.Img, f, vs[rr.Intn(len(vs))])
 			emit("P", "p_flash_partition", H(m))
 		}
+		// at least two uncovered block ranges (gaps between regions and an uncovered tail): the
+		// regions NewFlashImage synthesises for them are judged by their reported base/limit
+		if m := multiGapImage(fi, rr.Fork(0x6A9)); m != nil {
+			emit("P", "p_flash_partition", H(m))
+			emit("P", "p_modes", H(m))
+		}
 	}
+}
+
+// multiGapImage: the image with its raw regions (and, half of the time, the ME region) no longer
+// declared, and three blocks appended: an undeclared one, one declared as a raw region, and an
+// undeclared tail.  Whatever the original layout, at least two block ranges are described by no slot.
+func multiGapImage(fi *flashops.Image, r *Rng) []byte {
+	off := map[string]int{}
+	for _, f := range fi.DescFields {
+		off[f.Name] = f.Off
+	}
+	nrOff, ok := off["ifd.nregions"]
+	if !ok {
+		return nil
+	}
+	usable := 15
+	if nr := int(fi.Img[nrOff]); nr >= 1 && nr <= 14 {
+		usable = nr
+	}
+	if usable < 3 {
+		return nil
+	}
+	m := append([]byte{}, fi.Img...)
+	nb := len(m) / 4096
+	for i := 0; i < 3; i++ {
+		b := r.Bytes(4096)
+		if r.Bool() {
+			for j := range b {
+				b[j] = 0xFF
+			}
+		}
+		m = append(m, b...)
+	}
+	slot := func(i, base, limit int) bool {
+		bo, ok1 := off[fmt.Sprintf("ifd.slot%d.base", i)]
+		lo, ok2 := off[fmt.Sprintf("ifd.slot%d.limit", i)]
+		if !ok1 || !ok2 {
+			return false
+		}
+		binary.LittleEndian.PutUint16(m[bo:], uint16(base))
+		binary.LittleEndian.PutUint16(m[lo:], uint16(limit))
+		return true
+	}
+	first := 2
+	if r.Bool() {
+		first = 1 // the ME region becomes an uncovered range as well
+	}
+	for i := first; i < usable; i++ {
+		if !slot(i, 0x7FFF, 0) {
+			return nil
+		}
+	}
+	if !slot(2+r.Intn(usable-2), nb+1, nb+1) {
+		return nil
+	}
+	return m
 }
